@@ -40,4 +40,4 @@ Print Assumptions system_frame.
 (* non-vacuity: two tasks on one table, different integrations *)
 Example two_pairs_differ :
   (t_src (Task 1 1 2 3 1 0 1 1 [] true true), t_ig (Task 1 1 2 3 1 0 1 1 [] true true)) <> (1, 4).
-Proof. cbn. intros H. inversion H. Qed.
+Proof. exact two_pairs_differ_lemma. Qed.
